@@ -29,7 +29,7 @@ RULE = (
     "(CorrFunc HDF5, CorrData text, Configuration YAML write+read); creation with id column, build_trees, histogram and crosscorrelate also with progress=True; four programs on multi-node layouts {AB, AAB, ABA, ABB, ABAB, AABB} (processor names differ)} x world size {2,3|4} x max_workers {None,1,2,size} x "
     "send completion {eager, rendezvous | size-threshold} x collectives {full, minimal synchronisation}; every "
     "wildcard-receive matching the standard permits is enumerated (POE: deterministic matches first, then branch over "
-    "all matchable senders); creation on 4 ranks: complete up to 3 deviations from the default matching. Three refusal programs (oversized probe of a random generator; a given centre that attracts no object; an existing target directory without overwrite): what the single process refuses must be refused on every rank (no rank returns, none is left waiting). Oracle: no deadlock, no rank raises, no message left unreceived, every pair-count / "
+    "all matchable senders); creation on 4 ranks: complete up to 3 deviations from the default matching. Five programs on 3 ranks also with YAW_NUM_THREADS=1 / 2 in the environment. Three refusal programs (oversized probe of a random generator; a given centre that attracts no object; an existing target directory without overwrite): what the single process refuses must be refused on every rank (no rank returns, none is left waiting). Oracle: no deadlock, no rank raises, no message left unreceived, every pair-count / "
     "histogram task executed exactly once, root observation == observation of the same program in an MPI-less "
     "single process. Non-trivial: an execution in which some wildcard receive had >= 2 candidate senders."
 )
@@ -78,6 +78,11 @@ def cases(tier, seed):
                 # completely up to 3 deviations from the default matching (iterative context bounding)
                 case["bound"] = 3
             out.append(case)
+            # the thread-count variable of the multiprocessing back end set in the environment of an MPI run (a cluster
+            # job script may export it): it must not change which ranks take part
+            if size == 3 and mw is None and sm == "eager" and cm == "full" and prog in ("create-centres", "trees", "hist", "cross", "load"):
+                for threads in ("1", "2"):
+                    out.append(dict(case, threads_env=threads))
     # ranks spread over several nodes (different processor names): only the ranks on the root's node take part
     for prog, nodes in itertools.product(("create-centres", "create-ids", "hist", "cross"), ("AB", "AAB", "ABA", "ABB", "ABAB", "AABB")):
         if tier == "quick" and len(nodes) == 4 and prog != "create-ids":
@@ -184,6 +189,7 @@ def run_case(case):
         case = dict(case, fixture=os.path.join(root, "fixture"), baseline=fresh_base[case["program"]])
     prog, size, mw = case["program"], case["size"], case["max_workers"]
     sm, cm = case["send_mode"], case["coll_mode"]
+    os.environ["YAW_NUM_THREADS"] = case.get("threads_env", "64")
     calls = {}
     orig_ppp, orig_hist = measurements.process_patch_pair, redshifts._redshift_histogram
 
